@@ -228,6 +228,7 @@ func (dbc *DatabaseContext) UpdatePrincipal(ctx context.Context, updates *auth.P
 			}
 		}
 		princ.SetUpdatedAt()
+		casBeforeSave := princ.Cas()
 		err = authenticator.Save(princ)
 		// On cas error, retry.  Otherwise break out of loop
 		if base.IsCasMismatch(err) {
@@ -237,6 +238,13 @@ func (dbc *DatabaseContext) UpdatePrincipal(ctx context.Context, updates *auth.P
 				base.InfofCtx(ctx, base.KeyAuth, "Error releasing unused sequence %d after CAS retry for principal %s: %v", nextSeq, base.UD(princ.Name()), err)
 			}
 		} else {
+			// Any other failure that left the principal document unwritten (validation, storage error) abandons the
+			// allocated sequence as well. A timeout, or a failure after the document was written, does not.
+			if err != nil && princ.Cas() == casBeforeSave && !base.IsTimeoutError(err) {
+				if releaseErr := dbc.sequences.releaseSequence(ctx, nextSeq); releaseErr != nil {
+					base.InfofCtx(ctx, base.KeyAuth, "Error releasing unused sequence %d after failed update of principal %s: %v", nextSeq, base.UD(princ.Name()), releaseErr)
+				}
+			}
 			return replaced, princ, err
 		}
 	}
